@@ -69,7 +69,8 @@ impl<T: Read + Seek> PagedReader<T> {
     /// Seeking to a physical file address as offset relative to the start of the file.
     /// Will return the new logical offset inside the file or an error.
     pub fn seek_physical(&mut self, offset: u64) -> Result<u64> {
-        if offset >= self.phy_file_size {
+        // Seeking to the end is allowed, any read will return zero bytes there
+        if offset > self.phy_file_size {
             Err(Error::new(
                 ErrorKind::InvalidInput,
                 format!("Offset {offset} is behind end of file"),
